@@ -96,6 +96,15 @@ def check(ctx):
                             inline = True
                     if isinstance(a, ast.stmt):
                         break
+                # short-circuit context inside the statement's own expression: `a and b and <call>` (a, b true) as well as
+                # `not a or not b or not <call>` (the earlier operands false)
+                from .c10 import _guard_context as _gc
+                from ..engine.cfg import implied_facts as _if
+
+                for t_, pol_ in _gc(c, st_):
+                    for e_, p_ in _if(t_, pol_):
+                        if p_ and isinstance(e_, ast.Call) and call_name(e_) == "_has_path_component":
+                            inline = True
                 pos = any(isinstance(e, ast.Call) and call_name(e) == "_has_path_component" for e, pol in facts)
                 guarded_pos = any(pol and isinstance(e, ast.Call) and call_name(e) == "_has_path_component" for e, pol in facts) or inline
                 blocking = any((not pol) and isinstance(e, ast.Call) and call_name(e) == "_has_path_component" for e, pol in facts)
